@@ -27,6 +27,7 @@ class Mode(LogMixin):
     """Base class for a mode."""
 
     __slots__ = ["machine", "config", "name", "path", "priority", "_active", "_starting", "_mode_start_wait_queue",
+                 "_start_completing", "_stop_after_start", "_stop_completing", "_start_after_stop",
                  "stop_methods", "start_callback", "stop_callbacks", "event_handlers", "switch_handlers",
                  "mode_stop_kwargs", "mode_devices", "start_event_kwargs", "stopping", "delay", "player",
                  "auto_stop_on_ball_end", "restart_on_next_ball", "asset_paths"]
@@ -52,6 +53,10 @@ class Mode(LogMixin):
         self.priority = 0
         self._active = False
         self._starting = False
+        self._start_completing = False          # True between _started and the end of _mode_started_callback
+        self._stop_after_start = None           # kwargs of a stop request which arrived in that window
+        self._stop_completing = False           # True between _stopped and the end of _mode_stopped_callback
+        self._start_after_stop = None           # arguments of a start request which arrived in that window
         self._mode_start_wait_queue = None      # type: Optional[QueuedEvent]
         self.stop_methods = list()              # type: List[Tuple[Callable[[Any], None], Any]]
         self.start_callback = None              # type: Optional[Callable[[], None]]
@@ -165,6 +170,12 @@ class Mode(LogMixin):
             self.debug_log("Mode already starting. Aborting start.")
             return
 
+        if self._stop_completing:
+            # mode_<name>_stopped has not been processed and the handlers and devices of the last run have not been
+            # removed yet (that cleanup would remove those of the new run). Start once the stop is complete.
+            self._start_after_stop = (mode_priority, callback, kwargs)
+            return
+
         self._starting = True
 
         self.machine.events.post('mode_{}_will_start'.format(self.name), **kwargs)
@@ -247,6 +258,7 @@ class Mode(LogMixin):
 
         self.active = True
         self._starting = False
+        self._start_completing = True
 
         for event_name in self.config['mode']['events_when_started']:
             self.machine.events.post(event_name)
@@ -274,6 +286,13 @@ class Mode(LogMixin):
 
         self.debug_log('Mode Start process complete.')
 
+        self._start_completing = False
+        if self._stop_after_start is not None:
+            # a stop was requested before mode_<name>_started had been processed. stop now.
+            stop_kwargs = self._stop_after_start
+            self._stop_after_start = None
+            self.stop(**stop_kwargs)
+
     def stop(self, callback: Any = None, **kwargs) -> bool:
         """Stop this mode.
 
@@ -300,6 +319,12 @@ class Mode(LogMixin):
         # do not stop twice. only register callback in that case
         if self.stopping:
             # mode is still running
+            return True
+
+        if self._start_completing:
+            # mode_<name>_started has not been processed and mode_start() did not run yet. Stopping now would post
+            # will_stop before started and mode_start() would register its handlers after they have been removed.
+            self._stop_after_start = kwargs
             return True
 
         self.machine.events.post('mode_' + self.name + '_will_stop')
@@ -338,6 +363,7 @@ class Mode(LogMixin):
         self.priority = 0
         self.active = False
         self.stopping = False
+        self._stop_completing = True
 
         for item in self.stop_methods:
             item[0](item[1])
@@ -388,6 +414,13 @@ class Mode(LogMixin):
             callback()
 
         self.stop_callbacks = []
+
+        self._stop_completing = False
+        if self._start_after_stop is not None:
+            # a start was requested before mode_<name>_stopped had been processed. start now.
+            mode_priority, callback, start_kwargs = self._start_after_stop
+            self._start_after_stop = None
+            self.start(mode_priority, callback, **start_kwargs)
 
     def _add_mode_devices(self) -> None:
         """Add and initialize mode devices which get removed at the end of the mode."""
